@@ -6,7 +6,8 @@
    The model is tied to the code at run time by the correspondence (model says Panic <->
    implementation panics, debug and release) and the monitor (catch_unwind around every consumer). *)
 From CL Require Import Base.StrLemmas Model.Lexer Model.Parser Proofs.LexerProofs
-  Proofs.ParserSplit Proofs.ParserTotal Proofs.ParserSpans.
+  Proofs.ParserSplit Proofs.ParserTotal Proofs.ParserSpans Model.EventBridge Proofs.ParserShape.
+From CL Require Model.Events.
 
 (* the token stream exists for every input: the fuel (one unit per character) never runs out *)
 Theorem C03_lexer_total : forall (U : N -> ucls) (s : str) (off : N), exists ts, lex_at U s off = Some ts.
@@ -64,3 +65,44 @@ Theorem C03_events_total_refuted_old :
   exists U cfg s, p_strict_escape cfg = true /\ events U cfg s = Panic site_escaped_len.
 Proof. exact strict_escape_old_refuted. Qed.
 Print Assumptions C03_events_total_refuted_old.
+
+(* ---- the event stream has the shape the analysis pass relies on ----
+   [abstract_events] (Model/EventBridge.v) maps the parser model's events to the events the
+   analysis model consumes; [Events.parser_shaped] is the stream grammar of Model/Events.v:
+   blocks bracketed by Start k / End k and never nested, text and components only inside a
+   block (components only inside a step), front matter / metadata / sections only between blocks,
+   no empty text event, intermediate-reference data only together with the REF modifier and
+   with a non-negative value, every timer with a name or a quantity.  These are exactly the
+   facts behind the `assert!`s and `panic!`s of event_consumer.rs 153-186, 555, 601, 776; the
+   analysis theorems of C06 take [parser_shaped] as their hypothesis.  Holds for every
+   configuration of the model (old or repaired code, any extension set, debug or release): it is
+   a statement about the streams that are returned; that one is returned is C03_events_total. *)
+Theorem C03_parser_shaped :
+  forall (U : N -> ucls) (cfg : pcfg) (s : str) (evs : list pevent),
+    events U cfg s = Done evs -> Events.parser_shaped (abstract_events evs).
+Proof. exact events_shaped. Qed.
+Print Assumptions C03_parser_shaped.
+
+(* a consumer that stops early has seen a prefix of a shaped stream *)
+Theorem C03_parser_shaped_prefix :
+  forall (U : N -> ucls) (cfg : pcfg) (s : str) (evs : list pevent) (n : nat),
+    events U cfg s = Done evs -> Events.parser_shaped_prefix (abstract_events (firstn n evs)).
+Proof. intros U cfg s evs n. exact (events_prefix_shaped U cfg s evs n). Qed.
+Print Assumptions C03_parser_shaped_prefix.
+
+(* the metadata-only iterator emits a shaped stream as well (front matter, or metadata
+   entries and diagnostics) *)
+Theorem C03_meta_parser_shaped :
+  forall (U : N -> ucls) (cfg : pcfg) (s : str) (evs : list pevent),
+    meta_events U cfg s = Done evs -> Events.parser_shaped (abstract_events evs).
+Proof. exact meta_events_shaped. Qed.
+Print Assumptions C03_meta_parser_shaped.
+
+(* not vacuous: with the current code every input has a stream, and it is shaped *)
+Example C03_parser_shaped_inhabited :
+  forall (U : N -> ucls) (cfg : pcfg) (s : str), p_strict_escape cfg = false ->
+    exists evs, events U cfg s = Done evs /\ Events.parser_shaped (abstract_events evs).
+Proof.
+  intros U cfg s H. destruct (events_ok U cfg s H) as (evs & E & _). exists evs.
+  split; [exact E|]. exact (events_shaped U cfg s evs E).
+Qed.
